@@ -147,4 +147,4 @@ KNOWN_PREDICATES = {}
 
 # coverage-guided second driver (atheris / libFuzzer through Hypothesis' fuzz_one_input) for the core clauses: (clause, quick runs, thorough runs)
 from harness.covfuzz import cov_clauses  # noqa: E402
-CLAUSES += cov_clauses('C03', CLAUSES, [('nfa_to_dfa', 3000, 60000)])
+CLAUSES += cov_clauses('C03', CLAUSES, [('nfa_to_dfa', 3000, 20000)])
